@@ -137,6 +137,25 @@ func Main(args []string) int {
 }
 
 func cmdHarness(args []string) int {
+	if os.Getenv("VERIF_FORK_PROFILE") != "" {
+		forkProfile = map[string]int{}
+		defer func() {
+			type kv struct {
+				k string
+				n int
+			}
+			var l []kv
+			for k, n := range forkProfile {
+				l = append(l, kv{k, n})
+			}
+			sort.Slice(l, func(i, j int) bool { return l[i].n > l[j].n })
+			for i, e := range l {
+				if i < 25 {
+					fmt.Printf("  FORK %6d %s\n", e.n, e.k)
+				}
+			}
+		}()
+	}
 	fs := flag.NewFlagSet("harness", flag.ExitOnError)
 	repo := fs.String("repo", repoDir(), "repo")
 	pkg := fs.String("pkg", "p9", "package dir")
